@@ -103,7 +103,7 @@ Proof.
   apply xok_XM. apply (pres_m_new (xcur fuel 2) xok (Hcl 2)).
   apply Forall_app. split.
   - apply Forall_forall. intros k Hk. apply in_map_iff in Hk. destruct Hk as [m [<- Hm]].
-    unfold mem_leaf. apply (Hcl 1 OFirst). apply xok_XB. apply (pres_b_new (xcur fuel 0) xok (Hcl 0) lo hi). cbn [xok]. now apply HM.
+    unfold mem_leaf. apply (Hcl 2 OFirst). apply xok_XB. apply (pres_b_new (xcur fuel 1) xok (Hcl 1) lo hi). cbn [xok]. now apply HM.
   - constructor; [|constructor]. unfold version_scan. apply xok_XM. apply (pres_m_new (xcur fuel 1) xok (Hcl 1)).
     assert (forall fs, (forall f, In f fs -> PF (f_id f)) -> Forall xok (map lazy_leaf fs)) as Hleaf.
     { intros fs Hfs. apply Forall_forall. intros k Hk. apply in_map_iff in Hk. destruct Hk as [f [<- Hf]].
